@@ -4613,7 +4613,7 @@ func rulePerSegmentFieldsInvalidatedOnSwitch(r *Report, rule string) {
 		}
 		for _, l := range as.Lhs {
 			if fs, ok := asFieldSel(info, l); ok && fs.Owner == "DocValueReader" {
-				per[fs.Field.Name()] = l.Pos()
+				per[canonFieldName(fs.Field)] = l.Pos()
 			}
 		}
 		return true
